@@ -102,9 +102,14 @@ func LookupWellKnown(ctx context.Context, serverNameType spec.ServerName) (*Well
 	// by checking Content-Length, but it's possible that header will be
 	// missing. Better to be safe than sorry by reading no more than the
 	// WellKnownMaxSize in any case.
-	body, err := io.ReadAll(&io.LimitedReader{R: resp.Body, N: WellKnownMaxSize})
+	// Read one byte more than allowed so that an oversized body sent without a
+	// Content-Length header is refused rather than truncated and parsed.
+	body, err := io.ReadAll(&io.LimitedReader{R: resp.Body, N: WellKnownMaxSize + 1})
 	if err != nil {
 		return nil, err
+	}
+	if len(body) > WellKnownMaxSize {
+		return nil, fmt.Errorf("well-known response exceeds %d bytes", WellKnownMaxSize)
 	}
 
 	// Convert result to JSON
